@@ -237,8 +237,12 @@ def _v5(inp, fv, en, conf, custom):
     if custom:
         import os
         taken = os.path.exists(conf['fullDumpFile'])
+        if taken:
+            import shutil
+            shutil.copy(conf['fullDumpFile'], conf['fullDumpFile'] + '.1.tmp')           # as received from a
+            ser_b._Serializer__incomingTransmissionData = conf['fullDumpFile'] + '.1.tmp'
     else:
-        ser_b._Serializer__inMemorySerializedData = ser_a._Serializer__inMemorySerializedData
+        ser_b._Serializer__incomingTransmissionData = ser_a._Serializer__inMemorySerializedData
         taken = ser_a._Serializer__inMemorySerializedData is not None
     _, exc2 = guard(getattr(b, so.P + 'loadDumpFile'), True)
     best = max(x for x in fv if x <= en)
@@ -249,3 +253,36 @@ def _v5(inp, fv, en, conf, custom):
     cl['name_table_matches_restored_version'] = e3 is None and name == 'f_v%d' % best
     cl['source_node_consistent'] = a._getFuncName('f') == 'f_v%d' % best
     return Res(cl, nontrivial=en > 0, obs=lambda: dict(fvers=fv, enabled=en, custom=custom, restored=b.getCodeVersion(), name=name, exc=show(exc2)))
+
+
+@obligation('V6', props=('C17', 'C12', 'C01'), quick=[dict()], stubs=_STUBS + ('pysyncobj.syncobj.pickle=FakePickle', 'real in-memory Serializer (gzip + pickle) for the snapshot'),
+            bounds='a node whose code lacks version 1 is blocked at a committed VERSION(1) entry; a snapshot taken behind that entry (state value symbolic) is installed; one more add(x) is committed')
+def V6(inp):
+    """stopping at an unsupported version is not for ever: a node that was blocked at a VERSION entry and is then moved past it
+    by a snapshot from the leader goes on applying what is committed after the snapshot (every tick, exactly once)."""
+    import pysyncobj.serializer as ser_mod
+    now = inp.real('now', 0)
+    o, tr = so.make('a', ['b', 'c'], so.Clock(now), inp, cls=Acc)
+    cmds.install(inp)
+    add_id = o._methodToID['add_v0']
+    x1, x2, s0 = inp.int('x1', 1, 5), inp.int('x2', 1, 5), inp.choice('snapshot_total', 4) + 10
+    so.set_log(o, [(so.NOOP, 1, 0), (cmds.version(inp, 1), 2, 1), (cmds.regular(inp, add_id, (x1,)), 3, 1)])
+    put(o, 'raftCurrentTerm', 1); put(o, 'raftCommitIndex', 3); put(o, 'raftLastApplied', 1)
+    put(o, 'raftElectionDeadline', now + 100)
+    _, exc = guard(o._onTick, 0.0)
+    blocked = o.raftLastApplied
+    # the leader's snapshot of position 4 arrives and is installed (real gzip + pickle)
+    scratch = ser_mod.Serializer(None, 1 << 20, False, None, None, None)
+    scratch.serialize(({'total': s0, 'seq': []}, (so.NOOP, 4, 1), (so.NOOP, 3, 1), set([Node('a'), Node('b'), Node('c')]), 0), 3)
+    get(o, 'serializer')._Serializer__incomingTransmissionData = scratch._Serializer__inMemorySerializedData
+    _, exc1 = guard(getattr(o, so.P + 'loadDumpFile'), True)
+    log = get(o, 'raftLog')
+    log.add(cmds.regular(inp, add_id, (x2,)), 5, 1)
+    put(o, 'raftCommitIndex', 5)
+    _, exc2 = guard(o._onTick, 0.0)
+    _, exc3 = guard(o._onTick, 0.0)
+    cl = {'no_exception': exc is None and exc1 is None and exc2 is None and exc3 is None}
+    cl['blocked_before_the_version_entry'] = blocked == 1
+    cl['snapshot_installed'] = o.raftLastApplied >= 4
+    cl['goes_on_applying_after_the_snapshot'] = And(o.raftLastApplied == 5, Eq(o.total, s0 + x2))
+    return Res(cl, nontrivial=True, obs=lambda: dict(blocked=blocked, applied=o.raftLastApplied, total=show(o.total), exc=[show(e) for e in (exc, exc1, exc2, exc3)]))
